@@ -7,29 +7,40 @@ Sub-checks
     filters     keyword / dict / split filters: conjunction of 0-3 column conditions
     predicate   ONE callable over named columns (catalogue of total predicates + arbitrary truth tables)
     find        find_<col>(condition) and one_or_none(condition) against the rows the reference model selects
+    session     2-5 calls (inc / exc / find_<col>) on ONE table object with the condition objects shared between the calls, the table updated in between
     small_enum  thorough only: every 1-column table of 0-4 rows over a 7-value pool x every condition of a fixed list
 
 The oracle is a list-of-records filter written with plain python (`_sat` per cell, `selected(i)` per row); it never
 calls inc / exc / _row_check / is_nan.
 """
 import itertools
+import json
+import math
 import re
 
+import numpy as np
 from hypothesis import strategies as st
 
 from pv.core import Sub, EnumSub, Violation, call, call_or, short
 from pv.codec import build, Env, token, vtoken, is_nan_spec
 
 ASSUMPTIONS = [
-    'cells are None, ints, python floats incl. +-inf, float NaN objects (2 identities) and strings, as in the quantifier (no bools, no dates)',
+    'cells are None, ints (also beyond 2**53), python floats incl. +-inf and -0.0, float NaN objects (2 identities), strings (also format directives like %s), and - one number in several raw types - '
+    'numpy int64 / float64 scalars of small value and numpy\'s float64 NaN, as in the quantifier (no bools, no dates)',
+    'numpy int64 scalars beyond 2**53 are not used: numpy compares them with floats after rounding where python compares exactly, so "the cell equals the value" would depend on the operand order',
     'pyg_base.is_nan counts +-inf as NaN by design and the statement does not say whether an infinite cell satisfies a NaN condition: a row whose fate hangs on that '
     'is only required to be in exactly ONE of inc and exc, in order (find_ / one_or_none: either reading accepted); for every other condition inf is an ordinary float; '
     'a scalar +-inf is never used as a condition value (the library reads it as a NaN condition), only inside lists',
     'column names come from {a,ab,b,ba,c,k} (nested names on purpose): never a dictable/Dict method, a constructor parameter (data, columns) or a keyword of one_or_none (exc, find)',
-    'a condition is a scalar value (int / finite float / str), a list of 0-3 admissible non-NaN values (None allowed in the list), None, a NaN object, or a compiled regex; "value" means python equality (cell is v or cell == v, so 1 matches 1.0)',
+    'a condition is a scalar value (int / finite float / str / numpy int64 or float64), a list of admissible non-NaN values (0-3 of them, 64+, exactly as many as the table has rows, or the list OBJECT of one of '
+    'the table\'s own NaN-free columns; None allowed in the list), None, a NaN object (python float or numpy float64), or a compiled regex; "value" means python equality (cell is v or cell == v, so 1 matches 1.0 and 0 matches -0.0, 2**53 + 1 does not match float(2**53))',
+    'tuples / ranges / sets are not used as "lists" of admissible values: the statement names a list, and whether a tuple is one value or several is the library\'s convention, not the statement\'s',
     'lists of admissible values never contain NaN (membership of a NaN in a list is identity based in python; the statement has NaN as a condition of its own)',
-    'a conjunction has at most one condition per column (a dict filter and a keyword on the same column overwrite each other rather than conjoin)',
-    'callables are total, pure predicates whose parameter names are all columns of the table; their verdict is read by truthiness (bools, 0/1, 0/2, None/\'x\', \'\'/\'s\', []/[0], or a mix of these from row to row) as `if f(**row)` does; exactly ONE callable and no keyword filter next to it (exc(f, g) and callable+keyword mixes are outside the statement)',
+    'a conjunction has at most one condition per column (a dict filter and a keyword on the same column overwrite each other rather than conjoin); the one exception is the SAME dict object passed twice '
+    '(inc(k, k)): overwriting and conjoining a condition with itself are the same thing, it must select as inc(k) does',
+    'callables are total, pure predicates over parameters that are columns of the table, written as plain, keyword-only or default-carrying parameters (a column\'s value beats the declared default), optionally with *rest / **kw '
+    'which the predicate ignores (the statement does not say what they receive); ONE extra parameter z_ that is no column must keep its declared default (a container as long as the table, keyed like it, equal to a column, or empty); '
+    'a callable without any named parameter (f(*a, **kw)) is not a predicate on named columns and is not generated; their verdict is read by truthiness (bools, 0/1, 0/2, None/\'x\', \'\'/\'s\', []/[0], or a mix of these from row to row) as `if f(**row)` does; exactly ONE callable and no keyword filter next to it (exc(f, g) and callable+keyword mixes are outside the statement)',
     'the set of columns is compared, not their order (dictable re-orders columns alphabetically when it rebuilds a table from rows)',
     'rows are compared cell by cell with a type-strict token in which every NaN is one token (1 and 1.0 differ, NaN equals NaN)',
     'find_<col>: when two or more selected rows hold NaN in <col> and nothing else, both "returns NaN" and "raises ValueError" are accepted (whether two NaNs are one value is not decided by the statement)',
@@ -37,6 +48,10 @@ ASSUMPTIONS = [
     'results must be new table objects, never the operand itself, even when the selection keeps every row (inc and exc both start from self.copy(); a result that IS the table would let later edits of the result change the table); sharing of the column list objects is not checked',
     'large tables (64-200 rows, thorough up to 500) are short per-column patterns repeated, i.e. few distinct values and many duplicate rows',
     'one_or_none is checked only as an observation point of the rows inc selects, following its docstring: None for no row, the row for one, ValueError for several',
+    'condition containers (dicts, lists) are the caller\'s: a later call that gets the same object is judged by what the caller wrote into it; that the library leaves an object alone which is never used again is not demanded',
+    'session: between two calls the table is changed only through table[col] = list of the table\'s length (a column replaced or added); cells are not edited in place through the column lists, columns are not deleted; '
+    'every call is judged by the table\'s content at that moment (the statement is about one call; a table that was updated is a table)',
+    'two columns of a table may be ONE list object (dictable keeps the lists it is given), and a condition may be the list object of a column of the table itself',
 ]
 
 KNOWN = {}
@@ -63,7 +78,7 @@ def check(cond, msg, *fmt):
 # ----------------------------------------------------------------------------- reference model
 
 def _is_nan(x):
-    return isinstance(x, float) and x != x
+    return isinstance(x, float) and bool(x != x)           # numpy.float64 is a float; bool(): its comparisons give numpy.bool
 
 
 def _is_inf(x):
@@ -85,10 +100,15 @@ def _sat(cell, cond, env, inf_nan=None):
         return isinstance(cell, str) and re.search(payload, cell) is not None
     if kind == 'val':
         v = build(payload, env)
-        return cell is v or cell == v
+        return bool(cell is v or cell == v)             # bool(): a numpy scalar compares to numpy.bool
     if kind == 'list':
         for p in payload:
             v = build(p, env)
+            if cell is v or cell == v:
+                return True
+        return False
+    if kind == 'objs':            # admissible values that are already objects (the list object of one of the table's own columns)
+        for v in payload:
             if cell is v or cell == v:
                 return True
         return False
@@ -97,6 +117,8 @@ def _sat(cell, cond, env, inf_nan=None):
 
 def _fresh(v):
     """an object equal to v but (where CPython allows) not identical to the cell object it was drawn from"""
+    if isinstance(v, np.generic):
+        return type(v)(v)
     if isinstance(v, float) and v == v:
         return float(repr(v))
     if isinstance(v, str) and len(v) >= 2:
@@ -106,9 +128,11 @@ def _fresh(v):
     return v
 
 
-def _cond_value(cond, env):
+def _cond_value(cond, env, table=None):
     """the object handed to pyg_base for a column condition"""
     kind, payload = cond
+    if kind == 'col':             # the list object of the table's own column `payload` as the list of admissible values
+        return dict.__getitem__(table, payload)
     if kind == 'none':
         return None
     if kind == 'nan':
@@ -164,9 +188,64 @@ def _encode(ret, truth, vals):
     return _RESULTS[ret][1 if truth else 0]()
 
 
-def _as_callable(pred, args):
-    """a lambda whose parameter names are the columns, as a user would write it"""
-    return eval('lambda %s: _p(%s)' % (', '.join(args), ', '.join(args)), {'_p': pred})
+# the shapes a user's predicate over the columns `args` may have (kwargs_support hands a function the columns it NAMES: positional-or-keyword and keyword-only
+# parameters; *rest / **kw receive whatever the library likes and are ignored by the predicate; a parameter that is no column keeps its declared default)
+_SHAPES = ['plain', 'kwonly', 'varkw', 'varargs', 'first_then_kwonly', 'default_extra', 'default_cols']
+
+
+def _signature(shape, args):
+    a = ', '.join(args)
+    if shape == 'plain':
+        return a
+    if shape == 'kwonly':
+        return '*, ' + a
+    if shape == 'varkw':
+        return a + ', **kw'
+    if shape == 'varargs':
+        return a + ', *rest'
+    if shape == 'first_then_kwonly':
+        return ', '.join([args[0], '*rest'] + list(args[1:]) + ['**kw'])
+    if shape == 'default_extra':            # z_ is never a column: it must keep its (container) default
+        return a + ', z_=_d'
+    if shape == 'default_cols':             # every parameter has a (container) default AND is a column: the row's value counts
+        return ', '.join('%s=_d' % x for x in args)
+    raise ValueError(shape)
+
+
+def _bad_default(z):
+    raise AssertionError('the predicate was called with z_ = %s although the table has no column z_ (the parameter must keep its declared default)' % short(z, 80))
+
+
+def _as_callable(pred, args, shape='plain', dflt=None, factories=None):
+    """
+    a lambda whose parameter names are the columns, as a user would write it.
+    factories: {(shape, args): factory} of a session - all its predicates of one shape over the same columns are then made by ONE factory, i.e. share one code
+    object; outside sessions every predicate has a code object of its own (so that a case never depends on the cases run before it)
+    """
+    factories = {} if factories is None else factories
+    key = (shape, tuple(args))
+    if key not in factories:
+        body = '_p(%s)' % ', '.join(args)
+        if shape == 'default_extra':
+            body = '%s if z_ is _d else _bad(z_)' % body
+        factories[key] = eval('lambda _p, _d, _bad: (lambda %s: %s)' % (_signature(shape, args), body))
+    return factories[key](pred, dflt, _bad_default)
+
+
+_DEFAULTS = ['tuple_n', 'list_n', 'dict_cols', 'column', 'empty']
+
+
+def _default_container(kind, data, cols, n):
+    """the declared default of a predicate's parameter: a container as long as the table, keyed like it, equal to one of its columns, or empty"""
+    if kind == 'tuple_n':
+        return tuple(range(n))
+    if kind == 'list_n':
+        return [None] * n
+    if kind == 'dict_cols':
+        return {c: 0 for c in cols}
+    if kind == 'column':
+        return list(data[cols[0]])
+    return ()
 
 
 class _Rows(list):
@@ -213,70 +292,139 @@ def _unchanged(what, d, snap):
 def _build_table(spec, env):
     from pyg_base import dictable
     cols = spec['cols']
-    data = {c: [build(v, env) for v in spec['data'][c]] for c in cols}
+    share = spec.get('share') or []       # [[src, dst], ..]: column dst IS the list object of column src (two columns cut from one list)
+    cells = dict(spec['data'])
+    for src, dst in share:
+        cells[dst] = cells[src]
+    data = {c: [build(v, env) for v in cells[c]] for c in cols}
     if spec.get('tile'):          # large table: every column is its (short) pattern repeated up to `tile` rows
         data = {c: [data[c][i % len(data[c])] for i in range(spec['tile'])] for c in cols}
     n = len(data[cols[0]])
-    d = dictable({c: list(data[c]) for c in cols})
+    lists = {c: list(data[c]) for c in cols}
+    for src, dst in share:
+        data[dst] = data[src]
+        lists[dst] = lists[src]
+    d = dictable(lists)
     # harness sanity (not a violation): the constructor must have given us the table we describe
     if sorted(d.keys()) != sorted(cols) or len(d) != n:
         raise RuntimeError('builder: dictable(%r) has shape %s' % (data, (len(d), d.keys())))
     return d, data, n
 
 
-def _condition(spec_cond, data, env):
+def _vkey(c, k, p):
+    return json.dumps([c, k, p], sort_keys=True)
+
+
+def _condition(spec_cond, data, env, table=None, store=None):
     """
     -> (describe, caller(table, method name) -> result, selected(i) -> bool according to the reference model)
+    `table` is needed for a condition that is the list object of one of the table's own columns.
+    `store` (a dict living as long as a session of several calls on one table): the condition objects - values, lists, compiled patterns, condition dicts,
+    callables - are then made ONCE per content and the very same objects are handed to every call of the session that uses them.
     """
     if spec_cond['kind'] == 'filters':
-        conds = spec_cond['conds']        # [[col, kind, payload], ...]  at most one per column
+        raw = spec_cond['conds']        # [[col, kind, payload], ...]  at most one per column
         form = spec_cond['form']
-        values = [(c, _cond_value([k, p], env)) for c, k, p in conds]
+
+        def resolved(c, k, p):
+            if store is not None and ('cond', _vkey(c, k, p)) in store:
+                return store[('cond', _vkey(c, k, p))]
+            # the table's own column as the list of admissible values: judged by the content of that list object
+            r = ([c, 'objs', data[p]] if k == 'col' else [c, k, p]), _cond_value([k, p], env, table)
+            if store is not None:
+                store[('cond', _vkey(c, k, p))] = r
+            return r
+        both = [resolved(c, k, p) for c, k, p in raw]
+        conds = [r for r, v in both]
+        values = [(r[0], v) for r, v in both]
+        keys = [_vkey(c, k, p) for c, k, p in raw]
+        # positional condition dicts as lists of indices into conds, keyword conditions likewise
         if not conds:
-            pos, kw = ([{}] if form == 'dict' else []), {}       # inc() and inc({}): no condition
+            pos_idx, kw_idx = ([[]] if form in ('dict', 'dict_twice') else []), []       # inc() and inc({}): no condition
         elif form == 'kw':
-            pos, kw = [], dict(values)
-        elif form == 'dict':
-            pos, kw = [dict(values)], {}
+            pos_idx, kw_idx = [], list(range(len(conds)))
+        elif form in ('dict', 'dict_twice'):
+            pos_idx, kw_idx = [list(range(len(conds)))], []
         elif form == 'split':
-            pos, kw = [dict(values[:1])], dict(values[1:])
+            pos_idx, kw_idx = [[0]], list(range(1, len(conds)))
         elif form == 'dicts':
-            pos, kw = [dict([v]) for v in values], {}
+            pos_idx, kw_idx = [[i] for i in range(len(conds))], []
         else:
             raise ValueError(form)
-        desc = _T('(%s)' % ', '.join([short(p, 120) for p in pos] + ['%s = %s' % (c, short(v, 80)) for c, v in kw.items()]))
+        pos = [dict(values[i] for i in idx) for idx in pos_idx]
+        kw = dict(values[i] for i in kw_idx)
+        twice = form == 'dict_twice'
+        desc = _T('(%s)' % ', '.join([short(p, 120) for p in pos] + (['<the same dict object again>'] if twice else []) + ['%s = %s' % (c, short(v, 80)) for c, v in kw.items()]))
+
+        def containers():
+            """the positional condition dicts of one call: fresh ones - or, in a session, the session's own dict objects (one per content)"""
+            if store is None:
+                ds = [dict(p) for p in pos]
+            else:
+                ds = []
+                for idx, p in zip(pos_idx, pos):
+                    key = ('dict',) + tuple(keys[i] for i in idx)
+                    if key not in store:
+                        store[key] = dict(p)
+                    store['_uses'][key] = store['_uses'].get(key, 0) + 1
+                    ds.append(store[key])
+            return ds + ds[:1] if twice else ds
 
         def caller(table, method, extra=None):
-            # fresh containers on every call: the code under test may not rely on (or spoil) ours
+            # fresh containers on every call (outside sessions): the code under test may not rely on (or spoil) ours
             k = dict(kw)
             if extra:
                 k.update(extra)
-            return getattr(table, method)(*[dict(p) for p in pos], **k)
+            return getattr(table, method)(*containers(), **k)
 
         def selected(i, inf_nan=None):
             """True / False, or None when the row's fate hangs on an infinite cell under a NaN condition"""
             verdicts = [_sat(data[c][i], [k, p], env, inf_nan) for c, k, p in conds]
             return False if any(v is False for v in verdicts) else None if any(v is None for v in verdicts) else True
         caller.values = values
-        if form == 'split' and len(conds) >= 2:
-            # the caller's own condition dict, used for several calls in a row (first with keyword conditions, then on its own)
+        caller.conds = conds
+        caller.keys = keys
+        # the caller's own condition dict(s), used for several calls in a row: first the whole call (for dict + keywords: with the keyword conditions),
+        # then ONE of the dicts on its own - the same object - which must then mean what the caller wrote into it
+        reuse_on = spec_cond.get('reuse', form == 'split') and store is None
+        if reuse_on and conds and pos and (len(conds) >= 2 or form in ('dict', 'dict_twice')):
+            j = spec_cond.get('reuse_idx', 0) % len(pos)
+
             def reuse(table, method):
-                shared = [dict(p) for p in pos]
+                shared = containers()
                 first = getattr(table, method)(*shared, **dict(kw))
-                return first, getattr(table, method)(*shared), shared
+                return first, getattr(table, method)(shared[j]), shared
 
             def selected_dict_only(i, inf_nan=None):
-                return _sat(data[conds[0][0]][i], conds[0][1:], env, inf_nan)
+                verdicts = [_sat(data[conds[m][0]][i], conds[m][1:], env, inf_nan) for m in pos_idx[j]]
+                return False if any(v is False for v in verdicts) else None if any(v is None for v in verdicts) else True
             caller.reuse = reuse
             caller.selected_dict_only = selected_dict_only
-            caller.dict_desc = _T('(%s)' % short(pos[0], 120))
+            caller.dict_desc = _T('(%s)' % short(pos[j], 120))
+            names = ['key%i' % m for m in range(len(pos))] if len(pos) > 1 else ['key']
+            caller.reuse_call = _T(', '.join(names + (names[:1] if twice else []) + ['%s = ..' % c for c in kw]))
+            caller.reuse_name = names[j]
         return desc, caller, selected
     else:
         args = spec_cond['args']
-        pred = _predicate(spec_cond, data)
+        shape = spec_cond.get('shape', 'plain')
+        skey = ('fn', json.dumps(spec_cond, sort_keys=True))
+        if store is not None and skey in store:
+            f, pred = store[skey]
+        else:
+            pred = _predicate(spec_cond, data)
+            ret = spec_cond.get('ret', 'bool')
+            cols = list(data.keys())
+            dflt = _default_container(spec_cond.get('dflt', 'empty'), data, cols, len(data[cols[0]])) if shape.startswith('default') else None
+            f = _as_callable(pred if ret == 'bool' else (lambda *vals: _encode(ret, bool(pred(*vals)), vals)), args, shape, dflt,
+                             None if store is None else store.setdefault('_factories', {}))
+            if store is not None:
+                store[skey] = f, pred
+        if store is not None:
+            store['_uses'][skey] = store['_uses'].get(skey, 0) + 1
         ret = spec_cond.get('ret', 'bool')
-        f = _as_callable(pred if ret == 'bool' else (lambda *vals: _encode(ret, bool(pred(*vals)), vals)), args)
-        desc = _T('(lambda %s: %s%s)' % (', '.join(args), spec_cond['fn'] if spec_cond['fn'] != 'table' else 'true exactly on the values of rows %s' % spec_cond['true_rows'],
+        desc = _T('(lambda %s: %s%s)' % (_signature(shape, args).replace('_d', '<%s>' % spec_cond.get('dflt', 'empty')),
+                                        spec_cond['fn'] if spec_cond['fn'] != 'table' else 'true exactly on the values of rows %s' % spec_cond['true_rows'],
                                         '' if ret == 'bool' else ', verdict returned as %s' % (
                                             'a result kind that varies by row among %s' % _MIXED if ret == 'mixed' else '%r / %r' % (_RESULTS[ret][0](), _RESULTS[ret][1]()))))
 
@@ -285,6 +433,7 @@ def _condition(spec_cond, data, env):
 
         def selected(i, inf_nan=None):
             return bool(pred(*[data[c][i] for c in args]))
+        caller.function = f
         return desc, caller, selected
 
 
@@ -329,7 +478,7 @@ def run_partition(spec):
     cols = spec['cols']
     scols = sorted(cols)
     snap = _snapshot(d)
-    desc, caller, selected = _condition(spec['cond'], data, env)
+    desc, caller, selected = _condition(spec['cond'], data, env, table=d)
     tdesc = _T(short({c: data[c] for c in cols}, 200))
     all_rows = _rows(data, scols, n)
     status = [selected(i) for i in range(n)]
@@ -367,15 +516,15 @@ def run_partition(spec):
         st2 = [caller.selected_dict_only(i) for i in range(n)]
         if not any(v is None for v in st2):
             for method, keep in (('inc', True), ('exc', False)):
-                w = 'key = %s; dictable(%s).%s(key, %s)' % (caller.dict_desc, tdesc, method, ', '.join('%s = ..' % c for c, v in caller.values[1:]))
+                w = '%s = %s; dictable(%s).%s(%s)' % (caller.reuse_name, caller.dict_desc, tdesc, method, caller.reuse_call)
                 first, second, shared = call(w, reused, d, method)
                 exp1 = exp_inc if keep else exp_exc
                 check(list(_table_rows(_T(w), first, cols)) == exp1, '%s returned %s, expected rows %s', _T(w), first, sel if keep else unsel)
-                w2 = _T(w + '; then %s(key)' % method)
+                w2 = _T(w + '; then %s(%s)' % (method, caller.reuse_name))
                 exp2 = [all_rows[i] for i in range(n) if bool(st2[i]) == keep]
                 got2 = _table_rows(w2, second, cols)
                 check(list(got2) == exp2, '%s returned %s; the rows %s the condition %s alone are rows %s (the condition dict is now %s)', w2, got2,
-                      'satisfying' if keep else 'NOT satisfying', caller.dict_desc, [i for i in range(n) if bool(st2[i]) == keep], short(shared, 120))
+                      _T('satisfying' if keep else 'NOT satisfying'), caller.dict_desc, [i for i in range(n) if bool(st2[i]) == keep], short(shared, 120))
 
     # idempotent: the same condition applied to the result selects all of it
     again = call('dictable(%s).inc%s.inc%s' % (tdesc, desc, desc), caller, inc, 'inc')
@@ -392,46 +541,94 @@ def run_partition(spec):
     cls = ['n=%s' % ('0' if n == 0 else '1' if n == 1 else '2+'), 'ncols=%i' % len(cols)] + _shape_classes(spec, cols, n)
     special = False
     if spec['cond']['kind'] == 'filters':
-        conds = spec['cond']['conds']
+        conds = caller.conds              # resolved: the table's own column as a condition reads ['objs', its cells]
         form = spec['cond']['form']
-        cls.append('form=%s' % (form if conds else 'emptydict' if form == 'dict' else 'none'))
+        cls.append('form=%s' % (form if conds else 'emptydict' if form in ('dict', 'dict_twice') else 'none'))
         cls.append('nconds=%i' % len(conds))
         for (c, k, p), (_, v) in zip(conds, caller.values):
-            cls.append('cond=' + k)
+            cls.append('cond=' + ('list' if k == 'objs' else k))
             if k in ('none', 'nan', 'regex'):
                 special = True
-            if k == 'list':
+            if k == 'objs':
+                cls.append('cond_is_a_column_list_of_the_table')        # object identity among the inputs: an operand that is also (part of) the condition
+                if v is dict.__getitem__(d, c):
+                    cls.append('cond_is_the_conditioned_column_itself')
+            if k in ('list', 'objs'):
                 cls.append('list_len=%s' % (len(p) if len(p) < 4 else '4-63' if len(p) < 64 else '64+'))
-                if any(x is y or x == y for i, x in enumerate(v) for y in v[:i]):
+                if any(x is y or x == y for i, x in enumerate(v[:200]) for y in v[:i]):
                     cls.append('dup_in_list')
+                if n >= 2 and len(v) == n:
+                    cls.append('list_as_long_as_the_table')              # a sequence of exactly the table's length is still a list of admissible values, not a row-aligned vector
+                    if [bool(data[c][i] is v[i] or data[c][i] == v[i]) for i in range(n)] != [bool(_sat(data[c][i], [k, p], env)) for i in range(n)]:
+                        cls.append('list_as_long_as_the_table:row_aligned_reading_differs')
             if k == 'nan' and any(_is_nan(x) for x in data[c]):
                 cls.append('nan_cond_on_nan_column')
+            if k == 'nan' and isinstance(v, np.generic):
+                cls.append('numpy_scalar')
             if k == 'regex' and any(not isinstance(x, str) and re.search(p, str(x)) is not None for x in data[c]):
                 cls.append('regex_matches_str_of_nonstr_cell')       # where a str()-coercing implementation would differ
-            if k in ('val', 'list'):
+            if k in ('val', 'list', 'objs'):
                 vs = [v] if k == 'val' else v
-                if any(x == y and x is not y for x in data[c] for y in vs):
+                if any(x == y and x is not y for x in data[c][:200] for y in vs[:200]):
                     cls.append('equal_not_identical')
-                if any(y is None or (not y and not _is_nan(y)) for y in vs) or (k == 'list' and not vs):
+                if any(y is None or (not y and not _is_nan(y)) for y in vs) or (k != 'val' and not vs):
                     cls.append('falsy_condition_value')
+                # one number in several raw types (python int / float, numpy int64 / float64) among the matching cells and the admissible values
+                hit = [y for y in vs[:200] if y is not None and any(x is y or x == y for x in data[c][:200])]
+                hit += [x for x in data[c][:200] if any(x is y or x == y for y in hit)]
+                if len(set(type(x) for x in hit)) >= 2:
+                    cls.append('one_value_in_several_raw_types')
+                if any(isinstance(x, np.generic) for x in list(vs[:200]) + data[c][:200]):
+                    cls.append('numpy_scalar')
+                nums = [x for x in data[c] if x is not None]
+                if n >= 2 and len(nums) == n and all(isinstance(x, (int, float)) for x in nums):
+                    cls.append('numbers_only_column')
+                    if any(isinstance(x, int) and abs(x) > 2 ** 53 for x in nums) and any(isinstance(x, float) and abs(x) >= 2 ** 53 for x in list(nums) + list(vs)):
+                        cls.append('int_beyond_2**53_next_to_float')
+                    big = [y for y in vs if type(y) in (int, float) and y == y and abs(y) >= 2 ** 53]
+                    if any(type(x) in (int, float) and x == x and x != y and float(x) == float(y) for x in nums for y in big):
+                        cls.append('int_beyond_2**53:unequal_but_equal_as_floats')        # where a lookup through float64 (numpy) would match a cell that python equality rejects
+                    if any(isinstance(x, float) and x == 0 and math.copysign(1, x) < 0 for x in list(nums) + [y for y in vs if y is not None]):
+                        cls.append('negative_zero')
         if reused is not None and not undecided:
-            cls.append('condition_dict_reused_across_calls')
-            if [i for i in range(n) if caller.selected_dict_only(i)] != sel:
-                cls.append('condition_dict_reused:keywords_mattered')
+            keywords_mattered = [i for i in range(n) if caller.selected_dict_only(i)] != sel
+            if form == 'split':
+                cls.append('condition_dict_reused_across_calls')
+                if keywords_mattered:
+                    cls.append('condition_dict_reused:keywords_mattered')
+            else:
+                cls.append('condition_dict_reused:form=' + form)
+                if keywords_mattered:
+                    cls.append('condition_dict_reused:other_dicts_mattered')
         if len(conds) >= 2:
-            per_row = [sum(1 for c, k, p in conds if _sat(data[c][i], [k, p], env)) for i in range(n)]
+            sat = [[_sat(data[c][i], [k, p], env) for i in range(n)] for c, k, p in conds]
+            per_row = [sum(1 for col in sat if col[i]) for i in range(n)]
             if any(0 < m < len(conds) for m in per_row):
                 cls.append('row_satisfies_some_not_all')
                 if form in ('split', 'dicts'):
                     cls.append('row_satisfies_some_not_all_across_containers')
             if [c for c, k, p in conds] != [c for c in cols if c in [x[0] for x in conds]]:
                 cls.append('conds_not_in_column_order')
+            # order of steps: one condition drops a row that is not the last, another reads the rows that are left (its verdict is not the same on all rows)
+            if any(any(v is False for v in sat[x][:-1]) and any(len(set(map(bool, sat[y]))) == 2 for y in range(len(conds)) if y != x) for x in range(len(conds))):
+                cls.append('condition_evaluated_after_rows_were_dropped')
+            shared = spec.get('share') or []
+            if any(dict.__getitem__(d, a) is dict.__getitem__(d, b) and a in [x[0] for x in conds] and b in [x[0] for x in conds] for a, b in shared):
+                cls.append('two_conditioned_columns_are_one_list')
     else:
+        shape = spec['cond'].get('shape', 'plain')
         cls.append('fn=' + spec['cond']['fn'])
         cls.append('nargs=%i' % len(spec['cond']['args']))
         cls.append('ret=' + spec['cond'].get('ret', 'bool'))
+        cls.append('shape=' + shape)
+        if shape != 'plain':
+            cls.append('function_shape_not_plain')
+        if shape.startswith('default'):
+            cls.append('default=' + spec['cond'].get('dflt', 'empty'))
         if spec['cond'].get('ret', 'bool') != 'bool':
             cls.append('nonbool_result')
+    if any(dict.__getitem__(d, a) is dict.__getitem__(d, b) for a, b in spec.get('share') or []):
+        cls.append('columns_share_one_list')
     if undecided:
         cls.append('inf_cell_under_nan_condition')
         sel = sel + undecided[:len(got_inc) - len(sel)]         # for the shape classes only: as many rows as inc really returned
@@ -510,11 +707,21 @@ def run_find(spec):
     scols = sorted(cols)
     snap = _snapshot(d)
     col = spec['col']
-    desc, caller, selected = _condition(spec['cond'], data, env)
+    desc, caller, selected = _condition(spec['cond'], data, env, table=d)
     tdesc = _T(short({c: data[c] for c in cols}, 200))
     cls = ['ncols=%i' % len(cols), 'cond=' + (spec['cond']['kind'])] + _shape_classes(spec, cols, n)
     if spec['cond']['kind'] == 'callable' and spec['cond'].get('ret', 'bool') != 'bool':
         cls += ['nonbool_result', 'ret=' + spec['cond']['ret']]
+    if spec['cond']['kind'] == 'callable' and spec['cond'].get('shape', 'plain') != 'plain':
+        cls += ['function_shape_not_plain', 'shape=' + spec['cond']['shape']]
+    if spec['cond']['kind'] == 'filters':
+        cls.append('form=' + spec['cond']['form'])
+        if any(k == 'objs' for c, k, p in caller.conds):
+            cls.append('cond_is_a_column_list_of_the_table')
+    if any(isinstance(x, str) and '%' in x for x in data[col]):
+        cls.append('percent_sign_in_found_column')          # the messages of find_ are built with % formatting
+    if any(isinstance(x, np.generic) for x in data[col]):
+        cls.append('numpy_scalar_in_found_column')
     exc_cond = spec.get('exc')          # [col, kind, payload] or None
     extra = {}
     edesc = ''
@@ -556,10 +763,158 @@ def run_find(spec):
     else:
         raise first
     cls.append(label)
+    if label == 'multiple_values' and any(isinstance(data[col][i], str) and '%' in data[col][i] for i in sel):
+        cls.append('percent_sign_in_multiple_values')
     if undecided:
         cls.append('inf_cell_under_nan_condition')
     cls.append('one_or_none=%s' % ('none' if not sel1 else 'row' if len(sel1) == 1 else 'several'))
     nt = len(sel) != 1
+    return dict(nt=nt, cls=cls)
+
+
+# ----------------------------------------------------------------------------- oracle: a session of calls on ONE table object
+
+def _check_one_side(what, all_rows, status, got, keep):
+    """
+    `got` must hold, in the table's order, every row whose status is `keep`, no row whose status is `not keep`, and any of the rows whose
+    status is None (infinite cell under a NaN condition). Decided by one walk over the table tracking every possible number of rows of `got` consumed.
+    """
+    got = list(got)
+    states = {0}
+    for i, row in enumerate(all_rows):
+        new = set()
+        for p in states:
+            hit = p < len(got) and got[p] == row
+            if status[i] is None:
+                new.add(p)
+                if hit:
+                    new.add(p + 1)
+            elif status[i] == keep:
+                if hit:
+                    new.add(p + 1)
+            else:
+                new.add(p)
+        check(new, '%s: row %s of the table is missing (or out of order) in the result', what, i)
+        states = new
+    check(len(got) in states, '%s: the result holds rows it must not hold', what)
+
+
+def run_session(spec):
+    """
+    several calls (inc / exc / find_<col>) on ONE table object, the condition objects (values, lists, patterns, dicts, callables) made once and
+    handed to every call that uses them; between two calls the table may be updated through table[col] = values. Every call is judged on its
+    own by the single-call reference model applied to the table's content at that moment.
+    """
+    env = Env()
+    d, data, n = _build_table(spec, env)
+    cols = list(spec['cols'])
+    store = {'_uses': {}}
+    history = []
+    seen = []          # (step number, op, frozenset of condition keys, tuple of condition keys, expected rows, number of updates so far)
+    updates = 0
+    labels = set()
+    for s, step in enumerate(spec['steps']):
+        op = step['op']
+        tdesc = short({c: data[c] for c in cols}, 200)
+        if op == 'set':
+            c = step['col']
+            new = [build(v, env) for v in step['cells']]
+            new = [new[i % len(new)] for i in range(n)] if n else []
+            call('table[%r] = %s' % (c, short(new, 120)), d.__setitem__, c, list(new))
+            data[c] = new
+            if c not in cols:
+                cols.append(c)
+            if sorted(d.keys()) != sorted(cols) or len(d) != n:
+                raise RuntimeError('builder: after table[%r] = ... the table has shape %s' % (c, (len(d), d.keys())))
+            history.append('table[%r] = %s' % (c, short(new, 60)))
+            updates += 1
+            continue
+        scols = sorted(cols)
+        snap = _snapshot(d)
+        desc, caller, selected = _condition(step['cond'], data, env, table=d, store=store)
+        all_rows = _rows(data, scols, n)
+        status = [selected(i) for i in range(n)]
+        undecided = any(v is None for v in status)
+        before = _T(('after %s; ' % '; '.join(history)) if history else '')
+        if op in ('inc', 'exc'):
+            keep = op == 'inc'
+            what = _T('table = dictable(%s); %stable.%s%s' % (tdesc, before, op, desc))
+            res = call(what, caller, d, op)
+            got = _table_rows(what, res, cols)
+            _unchanged(_T('%s%s' % (op, desc)), d, snap)
+            exp_idx = [i for i in range(n) if status[i] == keep]
+            if not undecided:
+                check(list(got) == [all_rows[i] for i in exp_idx], '%s returned %s; the rows %s the condition are rows %s of the table, in that order',
+                      what, got, _T('satisfying' if keep else 'NOT satisfying'), exp_idx)
+            else:
+                _check_one_side(what, all_rows, status, got, keep)
+                labels.add('inf_cell_under_nan_condition')
+            check(res is not d, '%s returned the table object itself, so changing the result changes the table', what)
+            expected = (op, tuple(exp_idx))
+        else:
+            col = step['col']
+            what = _T('table = dictable(%s); %stable.find_%s%s' % (tdesc, before, col, desc))
+            ok, res = call_or(what, (ValueError,), caller, d, 'find_' + col)
+            _unchanged(_T('find_%s%s' % (col, desc)), d, snap)
+            first = None
+            for reading in ([True, False] if undecided else [None]):
+                try:
+                    sel = [i for i in range(n) if selected(i, reading)]
+                    labels.add('find:' + _judge_find(what, ok, res, sel, [data[col][i] for i in sel]))
+                    break
+                except Violation as v:
+                    first = first or v
+            else:
+                raise first
+            expected = ('find_' + col, tuple(sel))
+        if step['cond']['kind'] == 'filters':
+            keys = tuple(caller.keys)
+            labels.add('form=' + step['cond']['form'])
+        else:
+            keys = (json.dumps(step['cond'], sort_keys=True),)
+            labels.add('callable_step')
+        seen.append((s, op, frozenset(keys), keys, expected, updates, step['cond']['kind'], getattr(caller, 'function', None)))
+        history.append('%s%s' % (op if op != 'find' else 'find_' + step['col'], desc))
+
+    # ---- classes: how the calls of the session relate to one another
+    queries = len(seen)
+    cls = ['steps=%i' % len(spec['steps']), 'queries=%i' % queries, 'n=%s' % ('0' if n == 0 else '1' if n == 1 else '2+')] + _shape_classes(spec, spec['cols'], n)
+    for x in range(len(seen)):
+        for y in range(x + 1, len(seen)):
+            sx, opx, setx, keysx, expx, upx, kindx, fx = seen[x]
+            sy, opy, sety, keysy, expy, upy, kindy, fy = seen[y]
+            if upx != upy:
+                labels.add('table_updated_between_calls')
+                if keysx == keysy and opx == opy and expx != expy:
+                    labels.add('same_call_after_update_gives_other_rows')
+            if kindx != kindy:
+                labels.add('filters_and_callable_in_one_session')
+                continue
+            if kindx == 'callable':
+                if fx is fy:
+                    labels.add('callable_object_used_in_several_calls')
+                elif fx.__code__ is fy.__code__:
+                    labels.add('callables_made_by_one_factory')
+                    if opx == opy and expx != expy:
+                        labels.add('callables_made_by_one_factory:select_different_rows')
+                continue
+            colsx, colsy = [json.loads(k)[0] for k in keysx], [json.loads(k)[0] for k in keysy]
+            if keysx == keysy:
+                labels.add('same_condition_in_several_calls')
+            elif setx == sety:
+                labels.add('same_conditions_in_another_order')
+            elif sorted(colsx) == sorted(colsy):
+                labels.add('same_columns_other_values')
+                if opx == opy and expx != expy and upx == upy:
+                    labels.add('same_columns_other_values:other_rows')
+            elif setx < sety or sety < setx:
+                labels.add('conditions_extended_or_cut_back')
+            elif set(colsx) < set(colsy) or set(colsy) < set(colsx):
+                labels.add('columns_extended_or_cut_back')
+    if any(v >= 2 for k, v in store['_uses'].items() if k[0] == 'dict'):
+        labels.add('dict_object_passed_to_several_calls')
+    cls += sorted(labels)
+    nt = n >= 1 and queries >= 2 and len(set(e for _, _, _, _, e, _, _, _ in seen)) >= 2
     return dict(nt=nt, cls=cls)
 
 
@@ -585,8 +940,13 @@ _FLAVOURS = {
     'inf_nan': st.one_of(st.sampled_from([['inf', 1], ['inf', -1]]), _NAN, st.integers(0, 1)),       # +-inf next to NaN: is_nan counts both
     'inf_floats': st.one_of(st.just(['inf', 1]), _FLOATS, st.none(), st.just(['inf', -1])),
     'big': st.sampled_from([1000, 1000.0, 'ab', 'aba', 2.5, 10]),        # objects CPython does not share: equal is not identical
+    # numbers only (what a vectorised lookup would take): ints beyond 2**53 next to the float they round to, -0.0 next to 0, NaN
+    'bignum': st.one_of(st.sampled_from([2 ** 53, 2 ** 53 + 1, float(2 ** 53)]), st.sampled_from([2 ** 53, 2 ** 53 + 1, float(2 ** 53), -0.0, 0, 0.0, 2 ** 53 + 2, -2 ** 53 - 1]), _NAN),
+    # one number in several raw types: python int / float, numpy int64 / float64 (a float subclass), numpy NaN
+    'numpy': st.sampled_from([1, 1.0, ['np', 'float64', 1.0], ['np', 'int64', 1], 2.5, ['np', 'float64', 2.5], ['np', 'int64', 2], 2, ['nan', -1], ['nan', 0], None]),
+    'pct': st.sampled_from(['%s', '%d', '100%', 'a', '%(a)s', '%']),         # strings that are format directives (find_ builds its messages with %)
 }
-_FLAVOUR = st.sampled_from(['mixed', 'mixed', 'const'] + sorted(_FLAVOURS))
+_FLAVOUR = st.sampled_from(['mixed', 'mixed', 'const', 'bignum'] + sorted(_FLAVOURS))
 
 
 @st.composite
@@ -599,7 +959,7 @@ def _table(draw, max_rows, max_cols, large):
         for c in cols:
             fl = draw(_FLAVOUR)
             data[c] = [draw(_CELL)] if fl == 'const' else draw(st.lists(_FLAVOURS[fl], min_size=1, max_size=5))
-        return dict(cols=cols, data=data, tile=large[draw(st.integers(0, 9999)) % len(large)])
+        return _share(draw, dict(cols=cols, data=data, tile=large[draw(st.integers(0, 9999)) % len(large)]))
     n = draw(st.one_of(st.integers(0, max_rows), st.integers(2, max_rows)))
     data = {}
     for c in cols:
@@ -608,7 +968,21 @@ def _table(draw, max_rows, max_cols, large):
             data[c] = [draw(_CELL)] * n
         else:
             data[c] = draw(st.lists(_FLAVOURS[fl], min_size=n, max_size=n))
-    return dict(cols=cols, data=data)
+    return _share(draw, dict(cols=cols, data=data))
+
+
+def _share(draw, t):
+    """in about 1 table in 8 with two or more columns, two columns are ONE list object (as when both are cut from the same list)"""
+    cols = t['cols']
+    if len(cols) >= 2 and draw(st.integers(0, 7)) == 0:
+        src, dst = list(draw(st.permutations(cols)))[:2]
+        t['data'][dst] = list(t['data'][src])
+        t['share'] = [[src, dst]]
+    return t
+
+
+def _nrows(t):
+    return t.get('tile') or len(t['data'][t['cols'][0]])
 
 
 def _is_inf_spec(v):
@@ -626,9 +1000,22 @@ def _plain_values(cells):
     return out
 
 
+def _np_twin(draw, v):
+    """about one numeric condition value in 8 is handed over as the numpy scalar of the same value (int64 / float64) - small values only, where numpy and python equality agree"""
+    if isinstance(v, bool) or not isinstance(v, (int, float)) or abs(v) >= 2 ** 31 or draw(st.integers(0, 7)):
+        return v
+    if isinstance(v, int) and draw(st.booleans()):
+        return ['np', 'int64', v]
+    return ['np', 'float64', float(v)]
+
+
 @st.composite
-def _column_cond(draw, cells):
-    """[kind, payload] for one column, biased towards the column's own content"""
+def _column_cond(draw, cells, n=None, others=None):
+    """
+    [kind, payload] for one column, biased towards the column's own content.
+    n: the number of rows of the table (for lists of admissible values of exactly that length);
+    others: names of columns of the table without NaN whose list OBJECT may serve as the list of admissible values
+    """
     present = _plain_values(cells)
     has_inf = any(_is_inf_spec(v) for v in cells)
     has_none = any(v is None for v in cells)
@@ -636,6 +1023,10 @@ def _column_cond(draw, cells):
     has_str = any(isinstance(v, str) for v in cells)
     if has_inf and draw(st.integers(0, 9999)) % 2 == 0:
         return ['nan', [0, 1, 7][draw(st.integers(0, 9999)) % 3]]
+    if any(type(v) is int and abs(v) > 2 ** 53 for v in cells) and draw(st.integers(0, 9999)) % 2 == 0:
+        # a column with ints beyond 2**53: the neighbours that are different ints but the same float64
+        big = draw(st.lists(st.sampled_from([2 ** 53, 2 ** 53 + 1, float(2 ** 53), 2 ** 53 + 2, -2 ** 53 - 1, -float(2 ** 53)]), min_size=1, max_size=2, unique=True))
+        return ['val', big[0]] if len(big) == 1 and draw(st.booleans()) else ['list', big]
     kinds = ['val', 'val', 'list', 'list'] if present else []
     if has_none:
         kinds += ['none', 'none']
@@ -652,7 +1043,7 @@ def _column_cond(draw, cells):
     if kind == 'none':
         return ['none', None]
     if kind == 'nan':
-        return ['nan', draw(st.sampled_from([0, 1, 7]))]       # a NaN object of the table, or a fresh one
+        return ['nan', draw(st.sampled_from([0, 1, 7, 0, 1, 7, -1]))]       # a NaN object of the table, or a fresh one (7), or numpy's float64 NaN (-1)
     if kind == 'regex':
         if has_str and has_nonstr:
             pats = STR_PATTERNS + COERCE_PATTERNS
@@ -666,11 +1057,24 @@ def _column_cond(draw, cells):
         # never a scalar +-inf: the library reads it as a NaN condition (is_nan(value)), a value only inside a list
         finite = [v for v in present if not _is_inf_spec(v)]
         vpool = st.sampled_from(finite) if finite else _VALUE
-        return ['val', draw(st.one_of(vpool, vpool, vpool, _VALUE))]
+        return ['val', _np_twin(draw, draw(st.one_of(vpool, vpool, vpool, _VALUE)))]
     # list of admissible values
-    mode = ['some', 'some', 'dup', 'some', 'all', 'long', 'some', 'all', 'empty', 'foreign', 'some', 'all'][draw(st.integers(0, 9999)) % 12]
+    modes = ['some', 'some', 'dup', 'some', 'all', 'long', 'some', 'all', 'empty', 'foreign', 'some', 'all']
+    if n is not None and n >= 2:
+        modes = modes + ['len_n', 'len_n']
+    if others:
+        modes = modes + ['column', 'column']
+    mode = modes[draw(st.integers(0, 9999)) % len(modes)]
     if mode == 'empty':
         return ['list', []]
+    if mode == 'column':       # the list object of one of the table's own columns (e.g. t.inc(a = t.b), or t.inc(a = t.a)) - as long as the table, naturally
+        return ['col', others[draw(st.integers(0, 9999)) % len(others)]]
+    if mode == 'len_n':        # exactly as many admissible values as the table has rows: still a list of admissible values, not one value per row
+        elem_n = st.one_of(pool, pool, st.sampled_from([9, 'zz', 7.5]), _VALUE, st.none())
+        if n <= 12:
+            return ['list', draw(st.lists(elem_n, min_size=n, max_size=n))]
+        pat = draw(st.lists(elem_n, min_size=1, max_size=7))          # a large table: a short pattern repeated
+        return ['list', [pat[i % len(pat)] for i in range(n)]]
     if mode == 'long':         # 64+ admissible values (a set / vectorised lookup must keep python-equality semantics), some of them in the column
         keep = draw(st.lists(pool, max_size=3)) if present else []
         keep = [float(v) if isinstance(v, int) and i % 2 == 0 else v for i, v in enumerate(keep)]      # an int cell listed as its float twin
@@ -684,11 +1088,11 @@ def _column_cond(draw, cells):
     if mode == 'foreign':
         return ['list', draw(st.lists(st.sampled_from([9, 'zz', 7.5]), min_size=1, max_size=3, unique=True))]
     elem = st.one_of(pool, pool, pool, _VALUE, st.none())
-    return ['list', draw(st.lists(elem, min_size=1, max_size=3))]
+    return ['list', [_np_twin(draw, v) for v in draw(st.lists(elem, min_size=1, max_size=3))]]
 
 
 @st.composite
-def _filters_cond(draw, table, allow_none_form=True):
+def _filters_cond(draw, table, allow_none_form=True, own_columns=True):
     cols = table['cols']
     k = draw(st.sampled_from([1, 1, 2, 1, 0, 1, 2, 3, 1, 2, 2, 1] if allow_none_form else [1, 1, 2, 1, 3, 2, 1]))
     k = min(k, len(cols))
@@ -696,16 +1100,23 @@ def _filters_cond(draw, table, allow_none_form=True):
     with_inf = [c for c in order if any(_is_inf_spec(v) for v in table['data'][c])]
     if with_inf and draw(st.integers(0, 9999)) % 3 != 0:          # columns holding +-inf are conditioned more often
         order = with_inf + [c for c in order if c not in with_inf]
+    shared = [c for pair in table.get('share') or [] for c in pair]
+    if shared and draw(st.integers(0, 9999)) % 3 != 0:            # two columns that are one list object are conditioned together more often
+        order = shared + [c for c in order if c not in shared]
     chosen = order[:k]
     conds = []
+    n = _nrows(table)
+    others = [c for c in cols if not any(is_nan_spec(v) for v in table['data'][c])] if own_columns else None
     for c in chosen:
-        kind, payload = draw(_column_cond(table['data'][c]))
+        kind, payload = draw(_column_cond(table['data'][c], n, others))
         conds.append([c, kind, payload])
-    if len(conds) >= 2:      # conjunctions spread over several containers: dict + keywords, several dicts
-        form = draw(st.sampled_from(['split', 'kw', 'dicts', 'dict', 'split', 'dicts']))
+    if len(conds) >= 2:      # conjunctions spread over several containers: dict + keywords, several dicts, the same dict twice
+        form = draw(st.sampled_from(['split', 'kw', 'dicts', 'dict', 'split', 'dicts', 'dict_twice']))
     else:
-        form = draw(st.sampled_from(['kw', 'dict', 'kw']))
-    return dict(kind='filters', form=form, conds=conds)
+        form = draw(st.sampled_from(['kw', 'dict', 'kw', 'kw', 'dict', 'dict_twice']))
+    # the caller's own dict object(s) used for two calls in a row: always for dict + keywords and several dicts, in half of the other cases that have a dict
+    reuse = form in ('split', 'dicts') or draw(st.booleans())
+    return dict(kind='filters', form=form, conds=conds, reuse=reuse, reuse_idx=draw(st.integers(0, 2)))
 
 
 @st.composite
@@ -721,13 +1132,22 @@ def _callable_cond(draw, table):
         nargs = draw(st.integers(1, min(3, len(cols))))
         args = list(draw(st.permutations(cols))[:nargs])
         true_rows = [i for i, b in enumerate(draw(st.lists(st.sampled_from([True, False]), min_size=n, max_size=n))) if b]
-        return dict(kind='callable', fn='table', args=args, true_rows=sorted(true_rows), ret=ret)
+        return _fn_shape(draw, dict(kind='callable', fn='table', args=args, true_rows=sorted(true_rows), ret=ret))
     nargs = _CATALOGUE[fn][0]
     if nargs > len(cols):
         fn = draw(st.sampled_from(['is_none', 'is_nan', 'is_str', 'num_pos']))
         nargs = 1
     args = list(draw(st.permutations(cols))[:nargs])
-    return dict(kind='callable', fn=fn, args=args, ret=ret)
+    return _fn_shape(draw, dict(kind='callable', fn=fn, args=args, ret=ret))
+
+
+def _fn_shape(draw, cond):
+    """about 45% of the predicates are not plain `lambda a, b:` functions: keyword-only parameters, *rest, **kw, container defaults"""
+    shape = draw(st.sampled_from(['plain'] * 7 + _SHAPES[1:]))
+    cond['shape'] = shape
+    if shape.startswith('default'):
+        cond['dflt'] = draw(st.sampled_from(_DEFAULTS))
+    return cond
 
 
 def _sizes(tier):
@@ -755,12 +1175,81 @@ def _find_case(draw, tier):
     t['col'] = draw(st.sampled_from(t['cols']))
     if draw(st.integers(0, 3)) == 0:
         ec = draw(st.sampled_from(t['cols']))
-        kind, payload = draw(_column_cond(t['data'][ec]))
+        kind, payload = draw(_column_cond(t['data'][ec], _nrows(t)))
         # `if exc:` in one_or_none - an exc dict is never empty here
         t['exc'] = [ec, kind, payload]
     else:
         t['exc'] = None
     t['one_find'] = True
+    return t
+
+
+_SESSION_FORMS = ['kw', 'dict', 'split', 'dicts', 'dict_twice']
+
+
+@st.composite
+def _session_case(draw, tier):
+    """
+    one table, 2-5 steps. Up to 3 columns get TWO alternative conditions each; a step conditions a prefix of those columns (sometimes reversed), each
+    with its first alternative in 3 cases out of 4 - so the steps' conditions are prefixes / extensions / permutations of one another or differ only
+    in a value - mostly in one form; or uses one of up to 2 callables (two of them of one shape over the same columns, i.e. made by one factory);
+    or, between two queries, replaces / adds a column.
+    """
+    t = draw(_table(*_sizes(tier)))
+    cols = t['cols']
+    n = _nrows(t)
+    base = list(draw(st.permutations(cols)))[:3]
+    variants = {c: [draw(_column_cond(t['data'][c], n)), draw(_column_cond(t['data'][c], n))] for c in base}
+    fns = []
+    if draw(st.integers(0, 2)) == 0:
+        f = draw(_callable_cond(t))
+        fns.append(f)
+        g = dict(f)                  # a second predicate of the same shape over the same columns: made by the same factory
+        if f['fn'] == 'table':
+            m = min(n, 12)
+            g['true_rows'] = [i for i, b in enumerate(draw(st.lists(st.booleans(), min_size=m, max_size=m))) if b]
+        else:
+            same = [k for k in sorted(_CATALOGUE) if _CATALOGUE[k][0] == len(f['args'])]
+            g['fn'] = draw(st.sampled_from(same))
+        fns.append(g)
+    form0 = draw(st.sampled_from(_SESSION_FORMS))
+    nsteps = draw(st.sampled_from([2, 3, 3, 4, 4, 5, 3]))
+    steps = []
+    last, repeat = None, False
+    for s in range(nsteps):
+        if repeat:                  # the query made before the update, once more after it
+            steps.append(dict(last))
+            repeat = False
+            continue
+        kind = draw(st.sampled_from(['f'] * 4 + ['c'] * 6 + ['set'] * 2 if fns else ['f'] * 10 + ['set'] * 2))
+        if kind == 'set' and s in (0, nsteps - 1):
+            kind = 'f'              # an update only matters between two queries
+        if kind == 'c' and fns:
+            last = dict(op=draw(st.sampled_from(['inc', 'exc', 'inc', 'exc', 'find'])), cond=fns[draw(st.integers(0, len(fns) - 1))], col=draw(st.sampled_from(cols)))
+            steps.append(last)
+            continue
+        if kind == 'set':
+            # mostly a column the previous query looked at, sometimes any column or a new one
+            looked = (last['cond']['args'] if last['cond']['kind'] == 'callable' else [c for c, k, p in last['cond']['conds']]) + ([last['col']] if last['op'] == 'find' else [])
+            c = draw(st.sampled_from(looked * 3 + cols + [x for x in COLS if x not in cols][:1]))
+            repeat = draw(st.booleans())
+            fl = draw(_FLAVOUR)
+            m = n if not t.get('tile') else draw(st.integers(1, 5))
+            cells = [draw(_CELL)] * max(m, 1) if fl == 'const' else draw(st.lists(_FLAVOURS[fl], min_size=max(m, 1), max_size=max(m, 1)))
+            steps.append(dict(op='set', col=c, cells=cells))
+            continue
+        k = draw(st.integers(1, len(base)))
+        chosen = base[:k]
+        if draw(st.integers(0, 3)) == 0:
+            chosen = chosen[::-1]
+        conds = [[c] + variants[c][0 if draw(st.integers(0, 3)) else 1] for c in chosen]
+        form = form0 if draw(st.integers(0, 4)) else draw(st.sampled_from(_SESSION_FORMS))
+        if len(conds) < 2 and form in ('split', 'dicts'):
+            form = 'dict'
+        last = dict(op=draw(st.sampled_from(['inc', 'exc', 'inc', 'exc', 'find'])), cond=dict(kind='filters', form=form, conds=conds, reuse=False),
+                    col=draw(st.sampled_from(cols)))
+        steps.append(last)
+    t['steps'] = steps
     return t
 
 
@@ -801,9 +1290,11 @@ SUBS = [
     Sub('filters', _filters_case, run_partition, quick=3000, thorough=30000,
         rule='tables of 0-8 rows x 1-3 columns (thorough 0-12 x 1-4) of None/ints/floats/NaN objects/strings, about 8% of them LARGE (64/65/100/128/200 rows, thorough also 257/500: '
              'short column patterns repeated), column names nested in one another, +-inf cells in about 17% of the tables (a row whose infinite cell meets a NaN condition must only be in exactly one of inc / exc); a conjunction of 0-3 column conditions '
-             '(value, list of admissible values, None, NaN, compiled regex) passed as keywords, one dict, dict + keywords, or several dicts. '
+             '(value, list of admissible values, None, NaN, compiled regex) passed as keywords, one dict, dict + keywords, several dicts, or the same dict object twice. '
+             'Round-4 classes: numbers-only columns with ints beyond 2**53 next to the float they round to, -0.0 and NaN; one number as python int / float and numpy int64 / float64 (cells and condition values, numpy NaN conditions); '
+             'two columns that are ONE list object (about 1 table in 8); lists of admissible values of exactly the table\'s length, and the list object of one of the table\'s own columns as the condition; '
              'oracle: plain list-of-records filter; inc = satisfying rows in order, exc = the others in order, both with all columns, lengths add up, '
-             'inc() = identity, inc twice = once, table untouched; for dict + keywords the caller\'s dict is then passed again on its own (same object) and must select by its own content. non-trivial = at least one row and (both parts non-empty, or a None/NaN/regex condition, '
+             'inc() = identity, inc twice = once, table untouched; for dict + keywords and several dicts (and half of the one-dict / same-dict-twice cases) the caller\'s dict objects are used for a second call, ONE of them on its own, which must select by what the caller wrote into it. non-trivial = at least one row and (both parts non-empty, or a None/NaN/regex condition, '
              'or the condition matches all / no rows); distinct = distinct spec',
         floor=0.5,
         class_floors={'both_nonempty': 0.15, 'all': 0.03, 'nothing': 0.08, 'cond=nan': 0.05, 'cond=none': 0.05, 'cond=regex': 0.05, 'cond=list': 0.1,
@@ -814,20 +1305,34 @@ SUBS = [
                       'columns_not_alphabetical': 0.2, 'conds_not_in_column_order': 0.03, 'noop_selection': 0.3, 'falsy_condition_value': 0.08,
                       'nested_column_names': 0.15, 'only_first_row': 0.005, 'only_last_row': 0.005,
                       'row_satisfies_some_not_all_across_containers': 0.03, 'regex_matches_str_of_nonstr_cell': 0.015,
-                      'inf_cell': 0.08, 'inf_cell_under_nan_condition': 0.03}),
+                      'inf_cell': 0.08, 'inf_cell_under_nan_condition': 0.03,
+                      # round-4 classes (appendix 11-20)
+                      'cond_is_a_column_list_of_the_table': 0.006, 'cond_is_the_conditioned_column_itself': 0.003, 'list_as_long_as_the_table': 0.015, 'list_as_long_as_the_table:row_aligned_reading_differs': 0.006, 'numpy_scalar': 0.04, 'one_value_in_several_raw_types': 0.025, 'numbers_only_column': 0.08, 'int_beyond_2**53_next_to_float': 0.01, 'int_beyond_2**53:unequal_but_equal_as_floats': 0.007, 'negative_zero': 0.003, 'condition_dict_reused:form=dict': 0.02, 'condition_dict_reused:form=dicts': 0.015, 'condition_dict_reused:form=dict_twice': 0.01, 'condition_dict_reused:other_dicts_mattered': 0.007, 'condition_evaluated_after_rows_were_dropped': 0.035, 'two_conditioned_columns_are_one_list': 0.009, 'columns_share_one_list': 0.04, 'form=dict_twice': 0.035}),
     Sub('predicate', _predicate_case, run_partition, quick=2000, thorough=15000,
         rule='same tables; ONE callable over 1-3 named columns: a catalogue of total predicates (is None, is NaN, is str, > 0, str(a) < str(b), a == b, '
-             'constant True / False) or an arbitrary truth table on the rows; in about 40% of the cases the verdict is returned as a truthy / falsy non-bool (0/1, 0/2, None/x, empty/non-empty str or list, or a kind that varies from row to row). oracle: the truth value of the same python predicate applied to the plain records. '
+             'constant True / False) or an arbitrary truth table on the rows, written in about 45% of the cases not as `lambda a, b:` but with keyword-only parameters, *rest, **kw, a container default on every (column) parameter, '
+             'or an extra non-column parameter whose container default must stay; in about 40% of the cases the verdict is returned as a truthy / falsy non-bool (0/1, 0/2, None/x, empty/non-empty str or list, or a kind that varies from row to row). oracle: the truth value of the same python predicate applied to the plain records. '
              'non-trivial = at least one row and (both parts non-empty or all / nothing selected)',
         floor=0.5, class_floors={'both_nonempty': 0.15, 'all': 0.03, 'nothing': 0.05, 'fn=table': 0.2, 'nargs=2': 0.1, 'nonbool_result': 0.25,
                                  'large': 0.025, 'nested_column_names': 0.15, 'noop_selection': 0.3, 'duplicate_rows': 0.25, 'inf_cell': 0.08,
-                                 'ret=int01': 0.02, 'ret=int02': 0.02, 'ret=none_x': 0.02, 'ret=str': 0.02, 'ret=list': 0.02, 'ret=mixed': 0.02}),
+                                 'ret=int01': 0.02, 'ret=int02': 0.02, 'ret=none_x': 0.02, 'ret=str': 0.02, 'ret=list': 0.02, 'ret=mixed': 0.02,
+                                 # round-4 classes (appendix 14, 16)
+                                 'function_shape_not_plain': 0.08, 'shape=kwonly': 0.011, 'shape=varkw': 0.011, 'shape=varargs': 0.011, 'shape=first_then_kwonly': 0.011, 'shape=default_extra': 0.011, 'shape=default_cols': 0.011, 'default=tuple_n': 0.004, 'default=list_n': 0.004, 'default=dict_cols': 0.004, 'default=column': 0.004, 'default=empty': 0.004, 'columns_share_one_list': 0.04}),
     Sub('find', _find_case, run_find, quick=2500, thorough=15000,
         rule='same tables and conditions (filters or one callable, whose verdict is a non-bool truthy / falsy value in about 40% of the callable cases) plus a column: find_<col>(condition) must return the one value held by the selected rows and '
              'raise ValueError when no row or two different values are selected; one_or_none(condition[, exc=][, find=]) must give None / the row / ValueError '
              'for 0 / 1 / several selected rows. non-trivial = the selection is not a single row',
         floor=0.3, class_floors={'none_selected': 0.1, 'multiple_values': 0.1, 'unique_from_many': 0.05, 'single_row': 0.05, 'one_or_none_exc': 0.1,
-                                 'nonbool_result': 0.05, 'large': 0.03, 'nested_column_names': 0.15, 'inf_cell_under_nan_condition': 0.03}),
+                                 'nonbool_result': 0.05, 'large': 0.03, 'nested_column_names': 0.15, 'inf_cell_under_nan_condition': 0.03,
+                                 # round-4 classes (appendix 13, 14, 16, 17)
+                                 'function_shape_not_plain': 0.03, 'percent_sign_in_found_column': 0.015, 'percent_sign_in_multiple_values': 0.004, 'numpy_scalar_in_found_column': 0.013, 'cond_is_a_column_list_of_the_table': 0.0045, 'form=dict_twice': 0.03}),
+    Sub('session', _session_case, run_session, quick=1200, thorough=8000,
+        rule='same tables; 2-5 steps on ONE table object: inc / exc / find_<col> with a condition, or (between two queries) table[col] = new column, after which the query made before is often made again. '
+             'Up to 3 columns have two alternative conditions each and a step conditions a prefix of them (sometimes reversed), so the steps\' conditions are prefixes / extensions / permutations of one another '
+             'or differ in one value only, mostly in one form; a third of the sessions also use two callables of one shape over the same columns, made by ONE factory (one code object). The condition objects - values, lists, '
+             'patterns, dicts (one per content), callables - are made once and the same objects go into every call that uses them. oracle: every call judged on its own by the single-call reference model on the '
+             'table\'s content at that moment (original content of the containers), table untouched by queries, results never the table itself. non-trivial = at least one row, two or more queries, not all with the same expected result',
+        floor=0.3, class_floors={'queries=2': 0.1, 'queries=3': 0.14, 'queries=4': 0.06, 'table_updated_between_calls': 0.05, 'same_call_after_update_gives_other_rows': 0.009, 'filters_and_callable_in_one_session': 0.07, 'callable_object_used_in_several_calls': 0.03, 'callables_made_by_one_factory': 0.02, 'callables_made_by_one_factory:select_different_rows': 0.009, 'same_condition_in_several_calls': 0.18, 'same_conditions_in_another_order': 0.008, 'same_columns_other_values': 0.1, 'same_columns_other_values:other_rows': 0.027, 'conditions_extended_or_cut_back': 0.09, 'columns_extended_or_cut_back': 0.065, 'dict_object_passed_to_several_calls': 0.12, 'inf_cell_under_nan_condition': 0.02, 'callable_step': 0.08, 'large': 0.025, 'form=split': 0.03, 'form=dicts': 0.03, 'form=dict_twice': 0.06, 'find:multiple_values': 0.012, 'find:single_row': 0.018, 'find:none_selected': 0.07, 'find:unique_from_many': 0.013}),
     EnumSub('small_enum', enum_small, run_partition, thorough_only=True, chunks=64,
             rule='every 1-column table of 0-%i rows over the pool %s x %i single-column conditions x {keyword, dict}; same oracle as filters'
                  % (ENUM_MAX_ROWS, ENUM_POOL, len(ENUM_CONDS))),
